@@ -34,6 +34,7 @@ import warnings
 from concurrent.futures import ProcessPoolExecutor
 
 import core
+import c02_payload
 import codec_common as cc
 import extract_c01
 import extract_c02
@@ -259,6 +260,7 @@ def run(ctx: core.Run):
     ctx.regenerate(extract_c01.gen_codec)
     gen_w = ctx.regenerate(extract_c02.gen_tb_widths)
     ctx.prove(["PsdVerif.Props.C02"])
+    c02_payload.run(ctx)
     quick = ctx.quick
     rng = ctx.rng
     # the accepted signatures, from the source (validators, *_SIGNATURES attributes, comparisons with a signature);
